@@ -47,10 +47,11 @@ def run_history(ctx, hid, seed, tier, want_reads=False, corrupt_meta=True):
                 if pre[g]:
                     b = rng.choice(sorted(pre[g]))
                     mp = os.path.join(w.root, g, b, 'metadata.zst')
-                    saved = open(mp, 'rb').read()
-                    with open(mp, 'wb') as f:
-                        f.write(b'this is not zstd')
-                    garbled = (g, b, mp, saved)
+                    if os.path.isfile(mp):
+                        saved = open(mp, 'rb').read()
+                        with open(mp, 'wb') as f:
+                            f.write(b'this is not zstd')
+                        garbled = (g, b, mp, saved)
             src = w.source_manifest()
             shim_env = None
             trace = None
